@@ -108,6 +108,10 @@ func (g *G) genStored(focus string) storedSpec {
 			s.flags = append(s.flags, pick(g, `no-cache="X-Other"`, `no-cache="x-other, Date"`, `no-cache=X-Other`))
 		}
 	}
+	if s.maxAge != "" && g.chance(0.05) {
+		// max-age given twice with different values: only what the FIRST one grants may be relied upon
+		s.flags = append(s.flags, "max-age="+pick(g, "0", "5", "3600", "31536000"))
+	}
 	if g.chance(0.35) {
 		s.swr = pick(g, "0", "1", "5", "10", "60", "3600", "junk", bigNums[g.r.Intn(len(bigNums))])
 	}
